@@ -183,6 +183,77 @@ def write_op(rng, p, d, n=None):
     return op
 
 
+def _mk_kind(rng, ops, dsets, p, kind, spec_safe=False):
+    """append the creation (and usually a full write) of one object of the given kind at path p"""
+    dims = [rng.choice([1, 2, 3, 4])]
+    d = None
+    if kind == "plain":
+        dt = rng.choice(NUM_TYPES)
+        d = dict(dtype=dt, dims=dims)
+        ops.append({"op": "mkds", "path": p, "dtype": dt, "dims": dims})
+    elif kind == "string":
+        d = dict(dtype="string", dims=dims, strsize=4)
+        ops.append({"op": "mkds", "path": p, "dtype": "string", "dims": dims, "strsize": 4})
+    elif kind == "chunked":
+        dt = rng.choice(NUM_TYPES)
+        d = dict(dtype=dt, dims=dims, chunk=[1])
+        ops.append({"op": "mkds", "path": p, "dtype": dt, "dims": dims, "chunk": [1]})
+    elif kind == "compound":
+        comp = rand_compound(rng, spec_safe)
+        d = dict(dtype="compound", dims=dims, comp=comp, csize=comp["csize"])
+        ops.append(dict({"op": "mkcompound", "path": p, "dims": dims}, **comp))
+    elif kind in ("array", "enum", "opaque", "objref", "regref", "vlen"):
+        while True:
+            f = rand_ext_kind(rng, spec_safe)
+            if f["dtype"].split(":")[0] == kind:
+                break
+        d = dict(f, dims=dims)
+        ops.append(dict({"op": "mkds", "path": p, "dims": dims}, **f))
+    elif kind == "group":
+        ops.append({"op": "mkgroup", "path": p})
+    elif kind == "dense":
+        ops.append({"op": "mkdense", "path": p, "links": {"l%d" % i: q for i, q in enumerate(list(dsets)[:rng.choice([0, 1, 2])])}})
+    elif kind == "softlink":
+        ops.append({"op": "softlink", "path": p, "target": "/d0"})
+    if d is not None:
+        dsets[p] = d
+        if rng.random() < 0.9:
+            ops.append(write_op(rng, p, d))
+
+
+def gen_grow_with_neighbour(rng, spec_safe=False, dense=True, attrs=True):
+    """One object X of each kind in turn (plain / string / chunked / compound / array / enum / opaque / reference / vlen dataset,
+    group, dense group, group created with > 8 links, soft-link object) is created, then a NEIGHBOUR Y is allocated right behind
+    it (a written dataset, sometimes a group), then X's object header is made to grow in the same session: first hard link to X
+    (adds the reference count message) and / or attribute writes on X (up to the dense transition).  Y and every other object
+    must be unchanged after reopen and the file must open.  Added after a sweep at another seed found that CreateDenseGroup
+    allocated its header at the exact size (/repo 18bfe7a)."""
+    ops, dsets = [], {}
+    mk = lambda p, kind: _mk_kind(rng, ops, dsets, p, kind, spec_safe)
+    mk("/d0", rng.choice(["plain", "chunked"]))
+    kinds = ["plain", "string", "chunked", "compound", "array", "enum", "opaque", "objref", "vlen", "group", "glinks"] + (["dense", "dense"] if dense else [])
+    kind = rng.choice(kinds)
+    if kind == "glinks":
+        ops.append({"op": "mkgrouplinks", "path": "/x", "links": {"m%d" % i: "/d0" for i in range(rng.choice([9, 12]))} if dense else {}})
+    else:
+        mk("/x", kind)
+    if rng.random() < 0.3:
+        ops.append({"op": "mkgroup", "path": "/yg"})
+    mk("/y", rng.choice(["plain", "plain", "string", "chunked"]))
+    grow = rng.choice(["link", "link", "attrs", "both"]) if attrs and kind not in ("softlink",) else "link"
+    if grow in ("link", "both"):
+        ops.append({"op": "hardlink", "path": "/xl", "target": "/x"})
+        if rng.random() < 0.3:
+            ops.append({"op": "hardlink", "path": "/xl2", "target": "/x"})
+    if grow in ("attrs", "both"):
+        for j in range(rng.choice([1, 3, 9, 12])):
+            k, v = rand_attr_value(rng)
+            ops.append({"op": "setattr", "path": "/x", "name": ("a%02d" % j).encode().hex(), "kind": k, "val": v.hex()})
+    if rng.random() < 0.5:
+        mk("/z", rng.choice(["plain", "group"]))
+    return ops
+
+
 def gen_tail_kind(rng, spec_safe=False, dense=True):
     """Multi-session histories in which the LAST object allocated in the creating session is of each kind in turn (plain /
     chunked / compound / array / enum / opaque / reference / variable-length dataset, group, dense group, soft link), and later
@@ -190,41 +261,7 @@ def gen_tail_kind(rng, spec_safe=False, dense=True):
     last object, (c) touch the others.  C10: the allocator of a session is seeded from the file size, so whatever was reserved
     last must still be owned (added after seeded change C10-c was missed)."""
     ops, dsets = [], {}
-    def mk(p, kind):
-        dims = [rng.choice([1, 2, 3, 4])]
-        d = None
-        if kind == "plain":
-            dt = rng.choice(NUM_TYPES)
-            d = dict(dtype=dt, dims=dims)
-            ops.append({"op": "mkds", "path": p, "dtype": dt, "dims": dims})
-        elif kind == "string":
-            d = dict(dtype="string", dims=dims, strsize=4)
-            ops.append({"op": "mkds", "path": p, "dtype": "string", "dims": dims, "strsize": 4})
-        elif kind == "chunked":
-            dt = rng.choice(NUM_TYPES)
-            d = dict(dtype=dt, dims=dims, chunk=[1])
-            ops.append({"op": "mkds", "path": p, "dtype": dt, "dims": dims, "chunk": [1]})
-        elif kind == "compound":
-            comp = rand_compound(rng, spec_safe)
-            d = dict(dtype="compound", dims=dims, comp=comp, csize=comp["csize"])
-            ops.append(dict({"op": "mkcompound", "path": p, "dims": dims}, **comp))
-        elif kind in ("array", "enum", "opaque", "objref", "regref", "vlen"):
-            while True:
-                f = rand_ext_kind(rng, spec_safe)
-                if f["dtype"].split(":")[0] == kind:
-                    break
-            d = dict(f, dims=dims)
-            ops.append(dict({"op": "mkds", "path": p, "dims": dims}, **f))
-        elif kind == "group":
-            ops.append({"op": "mkgroup", "path": p})
-        elif kind == "dense":
-            ops.append({"op": "mkdense", "path": p, "links": {"l%d" % i: q for i, q in enumerate(list(dsets)[:rng.choice([0, 1, 2])])}})
-        elif kind == "softlink":
-            ops.append({"op": "softlink", "path": p, "target": "/d0"})
-        if d is not None:
-            dsets[p] = d
-            if rng.random() < 0.9:
-                ops.append(write_op(rng, p, d))
+    mk = lambda p, kind: _mk_kind(rng, ops, dsets, p, kind, spec_safe)
     kinds = ["plain", "string", "chunked", "compound", "compound", "compound", "array", "enum", "opaque", "objref", "regref", "vlen", "group"] + (["dense"] if dense else [])
     for i in range(rng.choice([1, 2, 3])):
         mk("/d%d" % i, rng.choice(["plain", "plain", "chunked", "compound", "array", "enum"]))
